@@ -10,19 +10,22 @@ CVC5_TIMEOUT_S = int(os.environ.get("VERIF_CVC5_TIMEOUT_S", "60"))
 CVC5 = "/usr/bin/cvc5"
 
 
-# z3's deterministic resource counter advances by roughly 3.5 million units per second of solving on this machine (measured on the
-# decoder VCs).  Budgets are given in "quiet seconds" and enforced through `rlimit`, so a verdict does not flip when all cores are busy
-# (a wall-clock timeout does: the very same VC was `unsat` alone and `unknown` next to a dozen other jobs); the wall-clock timeout is
-# only a backstop at eight times the budget.
+# Two kinds of budget.  FAST-PATH attempts use a wall-clock timeout: cheap, but the same VC that is `unsat` in 2 s alone comes back
+# `unknown` next to a dozen busy cores.  So a verdict never rests on them alone: the schedule ENDS with load-independent attempts - cvc5
+# under a CPU-time limit (RLIMIT_CPU) and z3 under `rlimit`, its deterministic resource counter (roughly 1-3.5 million units per second
+# of solving here, depending on the kind of VC), with a wall-clock backstop only at eight times the nominal budget.
 Z3_RLIMIT_PER_S = 3_500_000
 WALL_BACKSTOP = 8
 
 
-def _z3_try(smt2, timeout_ms, seed):
+def _z3_try(smt2, timeout_ms, seed, deterministic=False):
     import z3
     s = z3.Solver()
-    s.set("rlimit", int(timeout_ms / 1000.0 * Z3_RLIMIT_PER_S))
-    s.set("timeout", int(timeout_ms) * WALL_BACKSTOP)
+    if deterministic:
+        s.set("rlimit", int(timeout_ms / 1000.0 * Z3_RLIMIT_PER_S))
+        s.set("timeout", int(timeout_ms) * WALL_BACKSTOP)
+    else:
+        s.set("timeout", int(timeout_ms))
     if seed:
         s.set("random_seed", seed)
         s.set("smt.random_seed", seed)
@@ -31,8 +34,9 @@ def _z3_try(smt2, timeout_ms, seed):
     return str(r), (s.reason_unknown() if r == z3.unknown else "")
 
 
-def _cvc5_try(smt2, strings):
+def _cvc5_try(smt2, strings, cpu_s=None):
     import z3
+    cpu_s = cpu_s or CVC5_TIMEOUT_S
     text = smt2
     if "(lambda" in text:
         # z3 prints list concatenations as array lambdas; `select` of a lambda is not SMT-LIB: beta-reduce with z3's simplifier
@@ -50,15 +54,15 @@ def _cvc5_try(smt2, strings):
         f.write(f"(set-logic {logic})\n" + text + ("\n(check-sat)\n" if "(check-sat)" not in text else ""))
         path = f.name
     # the limit is CPU time of the cvc5 process (RLIMIT_CPU), not wall-clock time: load-independent; wall-clock backstop at eight times that
-    cmd = [CVC5, "--lang=smt2", f"--tlimit={CVC5_TIMEOUT_S * 1000 * WALL_BACKSTOP}"]
+    cmd = [CVC5, "--lang=smt2", f"--tlimit={cpu_s * 1000 * WALL_BACKSTOP}"]
     if strings:
         cmd.append("--strings-exp")
 
     def _limit():
         import resource
-        resource.setrlimit(resource.RLIMIT_CPU, (CVC5_TIMEOUT_S, CVC5_TIMEOUT_S + 5))
+        resource.setrlimit(resource.RLIMIT_CPU, (cpu_s, cpu_s + 5))
     try:
-        p = subprocess.run(cmd + [path], capture_output=True, text=True, timeout=CVC5_TIMEOUT_S * WALL_BACKSTOP + 10, preexec_fn=_limit)
+        p = subprocess.run(cmd + [path], capture_output=True, text=True, timeout=cpu_s * WALL_BACKSTOP + 10, preexec_fn=_limit)
     except subprocess.TimeoutExpired:
         return "", "cvc5: wall-clock backstop"
     finally:
@@ -81,11 +85,11 @@ def _solve_one(job):
     budget_ms = Z3_TIMEOUT_MS
     first = 5000 if quick else (15000 if use_cvc5 else budget_ms)
 
-    def z3_stage(seeds, each_ms):
+    def z3_stage(seeds, each_ms, deterministic=False):
         nonlocal res, info, backend
         for seed in seeds:
             try:
-                r, why = _z3_try(smt2, each_ms, seed)
+                r, why = _z3_try(smt2, each_ms, seed, deterministic)
             except Exception as e:  # noqa
                 r, why = "error", repr(e)
             if r in ("sat", "unsat"):
@@ -94,12 +98,12 @@ def _solve_one(job):
             info = why or info
         return False
 
-    def cvc5_stage():
+    def cvc5_stage(cpu_s=None):
         nonlocal res, info, backend
         if not (use_cvc5 and os.path.exists(CVC5)):
             return False
         try:
-            out, why = _cvc5_try(smt2, strings)
+            out, why = _cvc5_try(smt2, strings, cpu_s)
             if out in ("unsat", "sat"):
                 res, backend, info = out, "cvc5-1.0.3", ""
                 return True
@@ -110,8 +114,11 @@ def _solve_one(job):
 
     done = z3_stage([0], first)
     if not done and not quick and use_cvc5:
-        # cvc5 straight after the first z3 attempt (it decides in seconds the quantified array VCs z3 gives up on under most seeds), then the seeds
-        done = cvc5_stage() or z3_stage([1, 2, 3], 15000 if strings else 10000) or z3_stage([4, 5, 6, 7] if strings else [4, 5, 6, 7, 8, 9], budget_ms // 8)
+        # fast path (wall-clock): a SHORT cvc5 attempt straight after the first z3 attempt (it decides in 1-3 s the quantified array VCs z3 gives
+        # up on under most seeds), then z3 under other seeds (which settle most of the rest within seconds);
+        # load-independent tail: cvc5 with its full CPU budget, then z3 under every seed with a deterministic resource limit
+        done = cvc5_stage(60 if strings else 10) or z3_stage([1, 2, 3], 15000 if strings else 10000) or (not strings and cvc5_stage()) \
+            or z3_stage([4, 5, 6, 0, 1, 2, 3, 7] if strings else [4, 5, 6, 0, 1, 2, 3, 7, 8, 9], 30000, deterministic=True)
     return idx, res, backend, time.time() - t0, info
 
 
